@@ -4,8 +4,9 @@ import json, os, sys
 VERIF = os.path.dirname(os.path.dirname(os.path.abspath(__file__)))
 d = os.path.join(VERIF, "known_findings.d")
 out = []
+accepted = {l.split()[0] for l in open(os.path.join(VERIF, "engine", "claimed.txt")) if l.strip() and not l.startswith("#")}
 for f in sorted(os.listdir(d)):
-    if f.endswith(".json"):
+    if f.endswith(".json") and f[:-5] in accepted:
         data = json.load(open(os.path.join(d, f)))
         if isinstance(data, dict):
             data = data.get("findings", [])
